@@ -52,6 +52,8 @@ public:
     {
         results.clear();
         cse_intermediate_fns.clear();
+        // may be left over from a previous init() that threw
+        cse_intermediate_fns_map.clear();
         symbols = inputs;
         if (not cse) {
             for (auto &p : outputs) {
